@@ -21,58 +21,271 @@ import LemoModel.Ledger
 namespace LemoProofs.C01
 open LemoModel.Ledger
 
-/-- the state / gas / fee components of `mine` -/
-theorem mine_eq_validate (c : Ctx) : ∀ (txs : List Tx) (s : St),
-    validate c s (mineSel c s txs) =
-      some ((mine c s txs).1, (mine c s txs).2.2.2.1, (mine c s txs).2.2.2.2) := by
-  intro txs
-  induction txs with
-  | nil => intro s; simp [mineSel, mine, validate]
-  | cons t ts ih =>
-    intro s
-    unfold mineSel mine
-    by_cases hg : s.gp < LemoGen.Gas.OrdinaryTxGas
-    · simp [hg, validate]
-    · simp only [hg, if_false]
-      cases ha : applyTx c s t with
-      | error e =>
-        simp only []
-        rw [ih s]
-      | ok r =>
-        obtain ⟨s1, g1⟩ := r
-        simp only [validate, ha, ne_eq, not_true_eq_false, if_false]
-        rw [ih s1]
+/-! ### the gas pool only matters through "is there enough left": more pool, same result -/
 
-/-- the miner's selection re-mined alone selects everything again with the same gas:
-    the discarded candidates leave no trace in the block. -/
-theorem discards_irrelevant (c : Ctx) : ∀ (txs : List Tx) (s : St),
-    mineSel c s ((mineSel c s txs).map (·.1)) = mineSel c s txs ∧
-    (mine c s ((mineSel c s txs).map (·.1))).1 = (mine c s txs).1 := by
+theorem applySimple_mono (c : Ctx) (s s' : St) (gp gp' g : Nat) (t : Tx)
+    (h : applySimple c s gp t = .ok (s', gp', g)) (k : Nat) :
+    applySimple c s (gp + k) t = .ok (s', gp' + k, g) := by
+  unfold applySimple at h ⊢
+  simp only at h ⊢
+  split at h; · cases h
+  split at h; · cases h
+  split at h; · cases h
+  rename_i hv hb hg
+  split at h; · cases h
+  rename_i ig hig
+  split at h; · cases h
+  rename_i hgl
+  split at h; · cases h
+  rename_i sb hbody
+  injection h with h
+  injection h with h1 h2
+  injection h2 with h2 h3
+  subst h1 h2 h3
+  have hg' : ¬ gp + k < t.gasLimit := by omega
+  have hgg : ¬ gp < t.gasLimit := hg
+  have e1 : gp + k - t.gasLimit + (t.gasLimit - ig) = gp - t.gasLimit + (t.gasLimit - ig) + k := by omega
+  simp only [hv, hb, hg', if_false, hig, hgl, hbody, e1]
+
+theorem applySimple_ok_le (c : Ctx) (s s' : St) (gp gp' g : Nat) (t : Tx)
+    (h : applySimple c s gp t = .ok (s', gp', g)) : gp' ≤ gp := by
+  unfold applySimple at h
+  simp only at h
+  split at h; · cases h
+  split at h; · cases h
+  split at h; · cases h
+  split at h; · cases h
+  split at h; · cases h
+  split at h; · cases h
+  injection h with h
+  injection h with h1 h2
+  injection h2 with h2 h3
+  subst h2
+  omega
+
+theorem applySimple_err_le (c : Ctx) (s : St) (gp gp' : Nat) (e : Err) (t : Tx)
+    (h : applySimple c s gp t = .error (e, gp')) : gp' ≤ gp := by
+  unfold applySimple at h
+  simp only at h
+  split at h
+  · injection h with h; injection h with _ h2; omega
+  split at h
+  · injection h with h; injection h with _ h2; omega
+  split at h
+  · injection h with h; injection h with _ h2; omega
+  split at h
+  · injection h with h; injection h with _ h2; omega
+  split at h
+  · injection h with h; injection h with _ h2; omega
+  split at h
+  · injection h with h; injection h with _ h2; omega
+  · cases h
+
+theorem applySubs_mono (c : Ctx) : ∀ (ts : List Tx) (s s' : St) (gp gp' g : Nat) (f : Int),
+    applySubs c s gp ts = .ok (s', gp', g, f) → ∀ k, applySubs c s (gp + k) ts = .ok (s', gp' + k, g, f) := by
+  intro ts
+  induction ts with
+  | nil =>
+    intro s s' gp gp' g f h k
+    simp only [applySubs] at h ⊢
+    injection h with h; injection h with h1 h2; injection h2 with h2 h3; injection h3 with h3 h4
+    subst h1 h2 h3 h4; rfl
+  | cons t ts ih =>
+    intro s s' gp gp' g f h k
+    simp only [applySubs] at h ⊢
+    cases h1 : applySimple c s gp t with
+    | error e => simp [h1] at h
+    | ok r =>
+      obtain ⟨s1, gp1, g1⟩ := r
+      simp only [h1] at h
+      rw [applySimple_mono c s s1 gp gp1 g1 t h1 k]
+      simp only
+      cases h2 : applySubs c s1 gp1 ts with
+      | error e => simp [h2] at h
+      | ok r2 =>
+        obtain ⟨s2, gp2, g2, f2⟩ := r2
+        simp only [h2] at h
+        rw [ih s1 s2 gp1 gp2 g2 f2 h2 k]
+        simp only
+        injection h with h; injection h with a1 a2; injection a2 with a2 a3; injection a3 with a3 a4
+        subst a1 a2 a3 a4; rfl
+
+theorem applySubs_le (c : Ctx) : ∀ (ts : List Tx) (s : St) (gp : Nat),
+    (∀ s' gp' g f, applySubs c s gp ts = .ok (s', gp', g, f) → gp' ≤ gp) ∧
+    (∀ e gp', applySubs c s gp ts = .error (e, gp') → gp' ≤ gp) := by
+  intro ts
+  induction ts with
+  | nil =>
+    intro s gp
+    constructor
+    · intro s' gp' g f h; simp only [applySubs] at h
+      injection h with h; injection h with _ h2; injection h2 with h2 _; omega
+    · intro e gp' h; simp [applySubs] at h
+  | cons t ts ih =>
+    intro s gp
+    constructor
+    · intro s' gp' g f h
+      simp only [applySubs] at h
+      cases h1 : applySimple c s gp t with
+      | error e => simp [h1] at h
+      | ok r =>
+        obtain ⟨s1, gp1, g1⟩ := r
+        simp only [h1] at h
+        have l1 := applySimple_ok_le c s s1 gp gp1 g1 t h1
+        cases h2 : applySubs c s1 gp1 ts with
+        | error e => simp [h2] at h
+        | ok r2 =>
+          obtain ⟨s2, gp2, g2, f2⟩ := r2
+          simp only [h2] at h
+          have l2 := (ih s1 gp1).1 s2 gp2 g2 f2 h2
+          injection h with h; injection h with _ a2; injection a2 with a2 _
+          omega
+    · intro e gp' h
+      simp only [applySubs] at h
+      cases h1 : applySimple c s gp t with
+      | error e1 =>
+        obtain ⟨e1, g1⟩ := e1
+        simp only [h1] at h
+        have := applySimple_err_le c s gp g1 e1 t h1
+        injection h with h; injection h with _ a2; omega
+      | ok r =>
+        obtain ⟨s1, gp1, g1⟩ := r
+        simp only [h1] at h
+        have l1 := applySimple_ok_le c s s1 gp gp1 g1 t h1
+        cases h2 : applySubs c s1 gp1 ts with
+        | error e2 =>
+          obtain ⟨e2, g2⟩ := e2
+          simp only [h2] at h
+          have l2 := (ih s1 gp1).2 e2 g2 h2
+          injection h with h; injection h with _ a2; omega
+        | ok r2 => simp [h2] at h
+
+theorem applyTx_mono (c : Ctx) (s s' : St) (gp gp' g : Nat) (t : Tx)
+    (h : applyTx c s gp t = .ok (s', gp', g)) (k : Nat) :
+    applyTx c s (gp + k) t = .ok (s', gp' + k, g) := by
+  unfold applyTx at h ⊢
+  split
+  · rename_i hk
+    simp only [hk] at h
+    simp only at h ⊢
+    split at h; · cases h
+    split at h; · cases h
+    split at h; · cases h
+    rename_i hv hb hg
+    split at h; · cases h
+    rename_i ig hig
+    split at h; · cases h
+    rename_i hgl
+    split at h; · cases h
+    rename_i s2 gp2 sg sf hsub
+    injection h with h
+    injection h with h1 h2
+    injection h2 with h2 h3
+    subst h1 h2 h3
+    have hg' : ¬ gp + k < t.gasLimit := by omega
+    have hgg : ¬ gp < t.gasLimit := hg
+    have e1 : gp + k - t.gasLimit = (gp - t.gasLimit) + k := by omega
+    have e2 : gp2 + k + (t.gasLimit - ig) = gp2 + (t.gasLimit - ig) + k := by omega
+    simp only [hv, hb, hg', if_false, hig, hgl, e1, applySubs_mono c t.subs _ s2 _ gp2 sg sf hsub k, e2]
+  · rename_i hk
+    have : applySimple c s gp t = .ok (s', gp', g) := by
+      split at h
+      · rename_i hk'; exact absurd hk' hk
+      · exact h
+    exact applySimple_mono c s s' gp gp' g t this k
+
+theorem applyTx_err_le (c : Ctx) (s : St) (gp gp' : Nat) (e : Err) (t : Tx)
+    (h : applyTx c s gp t = .error (e, gp')) : gp' ≤ gp := by
+  unfold applyTx at h
+  split at h
+  · simp only at h
+    split at h
+    · injection h with h; injection h with _ h2; omega
+    split at h
+    · injection h with h; injection h with _ h2; omega
+    split at h
+    · injection h with h; injection h with _ h2; omega
+    split at h
+    · injection h with h; injection h with _ h2; omega
+    split at h
+    · injection h with h; injection h with _ h2; omega
+    split at h
+    · rename_i e2 hsub
+      obtain ⟨e2, g2⟩ := e2
+      have := (applySubs_le c t.subs _ _).2 e2 g2 hsub
+      injection h with h; injection h with _ h2; omega
+    · cases h
+  · exact applySimple_err_le c s gp gp' e t h
+
+/-- **mine_eq_validate**: for ALL parent states, gas pools and candidate lists: re-executing exactly the
+    txs the miner selected, with the gas the miner recorded, from the same parent state — and with ANY gas
+    pool at least as large (the validator's pool is not eaten by the miner's discarded candidates) —
+    succeeds and yields the same account state, gas and fee total. -/
+theorem mine_eq_validate (c : Ctx) : ∀ (txs : List Tx) (s : St) (gp k : Nat),
+    ∃ k', validate c s (gp + k) (mineSel c s gp txs) =
+      some ((mine c s gp txs).st, (mine c s gp txs).gp + k', (mine c s gp txs).gas, (mine c s gp txs).fee) := by
   intro txs
   induction txs with
-  | nil => intro s; simp [mineSel, mine]
+  | nil => intro s gp k; exact ⟨k, by simp [mineSel, mine, validate]⟩
   | cons t ts ih =>
-    intro s
-    by_cases hg : s.gp < LemoGen.Gas.OrdinaryTxGas
-    · simp [mineSel, mine, hg]
-    · cases ha : applyTx c s t with
+    intro s gp k
+    unfold mineSel mine
+    by_cases hg : gp < LemoGen.Gas.OrdinaryTxGas
+    · exact ⟨k, by simp [hg, validate]⟩
+    · simp only [hg, if_false]
+      cases ha : applyTx c s gp t with
       | error e =>
-        have h1 : mineSel c s (t :: ts) = mineSel c s ts := by simp [mineSel, hg, ha]
-        have h2 : (mine c s (t :: ts)).1 = (mine c s ts).1 := by simp [mine, hg, ha]
-        rw [h1, h2]; exact ih s
+        obtain ⟨e, gp'⟩ := e
+        have hle := applyTx_err_le c s gp gp' e t ha
+        obtain ⟨k', hk'⟩ := ih s gp' (k + (gp - gp'))
+        have : gp' + (k + (gp - gp')) = gp + k := by omega
+        rw [this] at hk'
+        exact ⟨k', by simpa using hk'⟩
       | ok r =>
-        obtain ⟨s1, g1⟩ := r
-        have h1 : mineSel c s (t :: ts) = (t, g1) :: mineSel c s1 ts := by simp [mineSel, hg, ha]
-        have h2 : (mine c s (t :: ts)).1 = (mine c s1 ts).1 := by simp [mine, hg, ha]
+        obtain ⟨s1, gp1, g1⟩ := r
+        obtain ⟨k', hk'⟩ := ih s1 gp1 k
+        refine ⟨k', ?_⟩
+        simp only [validate, applyTx_mono c s s1 gp gp1 g1 t ha k, ne_eq, not_true_eq_false, if_false, hk']
+
+/-- **discards_irrelevant**: the miner's selection re-mined ALONE (with any gas pool at least as large)
+    selects every tx again with the same gas and ends in the same account state: the discarded candidates
+    leave no trace in the block. -/
+theorem discards_irrelevant (c : Ctx) : ∀ (txs : List Tx) (s : St) (gp k : Nat),
+    mineSel c s (gp + k) ((mineSel c s gp txs).map (·.1)) = mineSel c s gp txs ∧
+    (mine c s (gp + k) ((mineSel c s gp txs).map (·.1))).st = (mine c s gp txs).st := by
+  intro txs
+  induction txs with
+  | nil => intro s gp k; simp [mineSel, mine]
+  | cons t ts ih =>
+    intro s gp k
+    by_cases hg : gp < LemoGen.Gas.OrdinaryTxGas
+    · simp [mineSel, mine, hg]
+    · cases ha : applyTx c s gp t with
+      | error e =>
+        obtain ⟨e, gp'⟩ := e
+        have hle := applyTx_err_le c s gp gp' e t ha
+        have h1 : mineSel c s gp (t :: ts) = mineSel c s gp' ts := by simp [mineSel, hg, ha]
+        have h2 : (mine c s gp (t :: ts)).st = (mine c s gp' ts).st := by simp [mine, hg, ha]
+        rw [h1, h2]
+        have := ih s gp' (k + (gp - gp'))
+        have e2 : gp' + (k + (gp - gp')) = gp + k := by omega
+        rw [e2] at this
+        exact this
+      | ok r =>
+        obtain ⟨s1, gp1, g1⟩ := r
+        have h1 : mineSel c s gp (t :: ts) = (t, g1) :: mineSel c s1 gp1 ts := by simp [mineSel, hg, ha]
+        have h2 : (mine c s gp (t :: ts)).st = (mine c s1 gp1 ts).st := by simp [mine, hg, ha]
         rw [h1, h2]
         simp only [List.map_cons]
-        obtain ⟨i1, i2⟩ := ih s1
+        obtain ⟨i1, i2⟩ := ih s1 gp1 k
+        have hg' : ¬ gp + k < LemoGen.Gas.OrdinaryTxGas := by omega
+        have hm := applyTx_mono c s s1 gp gp1 g1 t ha k
         constructor
-        · simp [mineSel, hg, ha, i1]
-        · simp [mine, hg, ha, i2]
+        · simp [mineSel, hg', hm, i1]
+        · simp [mine, hg', hm, i2]
 
-theorem validate_deterministic (c : Ctx) (s : St) (txs : List (Tx × Nat)) (r1 r2 : Option (St × Nat × Int))
-    (h1 : validate c s txs = r1) (h2 : validate c s txs = r2) : r1 = r2 := by rw [← h1, ← h2]
+theorem validate_deterministic (c : Ctx) (s : St) (gp : Nat) (txs : List (Tx × Nat)) (r1 r2 : Option (St × Nat × Nat × Int))
+    (h1 : validate c s gp txs = r1) (h2 : validate c s gp txs = r2) : r1 = r2 := by rw [← h1, ← h2]
 
 /-! ### the vote pass does not depend on the iteration order -/
 
